@@ -177,7 +177,39 @@ func skeleton(fn *ssa.Function, rename map[string]string) []string {
 	return out
 }
 
+// c18OptionsInsideExtension: wherever an extension header's options are decoded,
+// decodeTLVOption sees only the bytes of that extension: its argument is
+// data[offset:ActualLen]. With an open upper bound an option may run past the
+// extension into the next layer ("rejects inputs whose declared lengths exceed
+// the data").
+func c18OptionsInsideExtension(c *Ctx) {
+	rule := "O1-options-inside-extension"
+	n := 0
+	for fn := range c.Prog.AllFuncs() {
+		if fn.Blocks == nil || fn.Pkg == nil || fn.Pkg.Pkg.Path() != modPath+"/pkg/slayers" {
+			continue
+		}
+		s := NewSymer()
+		for _, b := range fn.Blocks {
+			for _, in := range b.Instrs {
+				call, ok := in.(*ssa.Call)
+				if !ok || calleeName(call.Common()) != "pkg/slayers.decodeTLVOption" {
+					continue
+				}
+				n++
+				sl, isSlice := call.Common().Args[0].(*ssa.Slice)
+				okBound := isSlice && sl.High != nil && strings.HasSuffix(s.Sym(sl.High), ".ActualLen") && sl.Low != nil
+				got := s.Sym(call.Common().Args[0])
+				c.Check(okBound, rule, FuncName(fn)+":option-bytes", call.Pos(),
+					"decodeTLVOption is handed "+got+"; required: the extension's bytes from the option's offset up to ActualLen")
+			}
+		}
+	}
+	c.Min("decodeTLVOption-call-sites", n, 2)
+}
+
 func runC18(c *Ctx) {
+	c18OptionsInsideExtension(c)
 	rule := "K1-codec-bits"
 	for _, cd := range c18Codecs {
 		ser, dec := c.Fn(cd.Ser), c.Fn(cd.Dec)
